@@ -491,6 +491,19 @@ def check_binomial(m, run):
     if len(truncated_quotient_findings(ctl_)) != 1:
         raise AnalysisError('FD2 positive control not reported: rule is broken')
     run.ob('FD2.no-truncated-float-quotient', fi.key, True, 'no truncation of a floating-point quotient; positive control reported')
+    # the value on integers is decided by exact interpretation (BN2); the rule that reads the closed form of the return corroborates
+    from .. import skel_drivers as _sdb
+    n_bn = len(run.obs)
+    try:
+        _sdb.bn2(m, run)
+    except AnalysisError as ex:
+        run.error(str(ex))
+    bn_ok = len(run.obs) > n_bn and all(o.ok for o in run.obs[n_bn:])
+    with run.corroborating(bn_ok, 'BN2', rules=('AL2.binomial',)):
+        _binomial_closed_form(m, run, fi)
+
+
+def _binomial_closed_form(m, run, fi):
     ps = params_of(fi.node)
     k, i = ps[0], ps[1]
     sub = Subst(fi.node)
